@@ -53,11 +53,33 @@ def _dims_of(call):
     return vals
 
 
+def validation_only(model):
+    """Functions that are called from the argument-validation phase only (check_contract, assert_no_grad and their
+    helpers) and are not reachable from the stepping loop, a solver step, an SDE wrapper method or a Brownian query: what
+    they compute never enters a returned state, so they are outside "the value path"."""
+    from ..callgraph import CallGraph
+    try:
+        cg = CallGraph(model, None)
+        roots = [f for f in model.functions.values()
+                 if f.name in ("integrate", "step", "init_extra_solver_state", "__call__", "forward", "backward")
+                 or (f.cls is not None and f.cls.name in ("ForwardSDE", "SDELogqp", "AdjointSDE", "RenameMethodsSDE"))]
+        kinds = ("direct", "byname", "slot", "callback", "implicit", "property", "gen-create", "trampoline", "delegation", "autograd")
+        on_path = {f.key for f in cg.reachable(roots, kinds=kinds)}
+        val_roots = [f for f in model.functions.values() if f.name in ("check_contract", "assert_no_grad", "handle_unused_kwargs")]
+        val = {f.key for f in cg.reachable(val_roots, kinds=kinds)}
+        return val - on_path
+    except Exception:
+        return set()
+
+
 def axis_scan(model, scope=SCOPE):
     """[(fi, node, description, ok, reason)]"""
     out = []
+    skip = validation_only(model)
     for fi in model.functions.values():
         if not any(fi.module.name.startswith(s) for s in scope):
+            continue
+        if fi.key in skip or fi.qualname.split(".<locals>")[0] in {k.split("::")[-1] for k in skip}:
             continue
         owner = fi.qualname.split(".<locals>")[0]
         tabled = TABLED.get(owner) or TABLED.get(fi.qualname)
